@@ -239,6 +239,22 @@ def main(argv):
                        'the model validate also checks the placeholders found inside each brace-delimited piece (argued equal to the placeholders of the whole template once '
                        'curly brackets inside placeholders are rejected; compared with the real validate on every generated template)']
     ck.prove()
+    # T1: the model's placeholder scanner (Templ/Template.v: findall) stands for ONE regular expression; validation and every evaluation
+    # step of the running code must still use exactly that expression (a split between them lets validated templates evaluate differently)
+    import ast as _ast, os as _os
+    src = open(_os.path.join('/repo', 'edxml', 'template.py')).read()
+    uses = []
+    for node in _ast.walk(_ast.parse(src)):
+        if isinstance(node, _ast.Call) and isinstance(node.func, _ast.Attribute) and isinstance(node.func.value, _ast.Name) and node.func.value.id == 're' and node.args:
+            a0 = node.args[0]
+            uses.append((node.func.attr, a0.value if isinstance(a0, _ast.Constant) else _ast.unparse(a0)))
+    expected = [('compile', '\\[\\[[^]]*]]'), ('findall', 'self.TEMPLATE_PATTERN'), ('findall', '\\[\\[[^]]*]]'), ('findall', '(\\[\\[([^]]*)]])'),
+                ('findall', 'self.TEMPLATE_PATTERN')]
+    ck.cov['t1_template_regexes'] = ['%s(%s)' % u for u in uses]
+    if sorted(uses) != sorted(expected):
+        ck.obligation_failures.append(('T1:template-regular-expressions',
+                                       'edxml/template.py uses %r; the placeholder scanner of the model stands for %r' % (sorted(uses), sorted(expected))))
+    ck.trusted += ['T1 (harness/c16.py): the regular expressions of edxml/template.py are re-read from the source (ast) and compared with the ones the model was written for']
     rng = ck.rng
     onto = ontology()
     et = onto.get_event_type('ta')
